@@ -37,6 +37,7 @@ CellDevs(n, j, k) ==
   \cup (IF n \in Svc /\ j = 5 THEN {"D_svcb_alpn_escape"} ELSE {})
   \cup (IF n \in Svc /\ j = 7 THEN {"D_svcb_nodefaultalpn"} ELSE {})
   \cup (IF n \in Svc /\ j = 9 THEN {"D_svcb_value_escape"} ELSE {})
+  \cup (IF n \in Svc /\ j = 15 THEN {"D_svcb_key_charset"} ELSE {})
 
 Emit ==
   LET n == Rows[row].name
